@@ -51,6 +51,9 @@ func factsMisc() {
 	emitList("setServersSortCalls", "pkg/cacheutil/memcached_server_selector.go SetServers: the sorting calls in source order",
 		callSeq(body(fn(f, "MemcachedJumpHashSelector", "SetServers")), "sort.Strings", "natsort.Sort", "sort.Sort", "sort.Slice", "sort.SliceStable", "sort.Stable"))
 
+	emitList("setServersBuild", "pkg/cacheutil/memcached_server_selector.go SetServers: how the new address list is built and installed — definition of naddr, the loop, every write to naddr, early returns in the loop, the lock and the assignment to s.addrs, in source order",
+		setServersBuild(fn(f, "MemcachedJumpHashSelector", "SetServers")))
+
 	// ---- C46: synchronisation skeleton of Queue.Pop / Queue.Push
 	f = parse("pkg/alert/alert.go")
 	emitList("alertQueuePopSkeleton", "pkg/alert/alert.go Queue.Pop: channel operations, mutex calls, the conditions that guard them and returns, in source order",
@@ -318,6 +321,49 @@ func selectorLoop(fd *ast.FuncDecl) []string {
 	if !found {
 		return []string{"unknown"}
 	}
+	return r
+}
+
+func setServersBuild(fd *ast.FuncDecl) []string {
+	var r []string
+	if fd == nil || fd.Body == nil {
+		return []string{"unknown"}
+	}
+	inLoop := 0
+	var walk func(n ast.Node)
+	walk = func(n ast.Node) {
+		ast.Inspect(n, func(m ast.Node) bool {
+			switch x := m.(type) {
+			case *ast.FuncLit:
+				return false
+			case *ast.RangeStmt:
+				r = append(r, "range "+text(x.X))
+				inLoop++
+				walk(x.Body)
+				inLoop--
+				r = append(r, "end range")
+				return false
+			case *ast.AssignStmt:
+				for _, l := range x.Lhs {
+					t := text(l)
+					if t == "naddr" || strings.HasPrefix(t, "naddr[") || t == "s.addrs" {
+						r = append(r, text(x))
+						break
+					}
+				}
+			case *ast.ReturnStmt:
+				if inLoop > 0 {
+					r = append(r, "return in loop")
+				}
+			case *ast.CallExpr:
+				if n := callName(x); n == "s.mu.Lock" || n == "s.mu.Unlock" {
+					r = append(r, n)
+				}
+			}
+			return true
+		})
+	}
+	walk(fd.Body)
 	return r
 }
 
